@@ -441,13 +441,25 @@ class _LogCall(__import__('ast').NodeTransformer):
 
 
 class _AugExpand(__import__('ast').NodeTransformer):
-  """x op= y  ->  x = x op y"""
+  """x op= y  ->  x = x op y   (not in functions that use numpy: there the
+  augmented form works in place on an array, the binary form does not)"""
+  _np = 0
+
+  def visit_FunctionDef(self, n):
+    import ast
+    uses = any(isinstance(x, ast.Attribute) and isinstance(x.value, ast.Name)
+               and x.value.id == 'np' for x in ast.walk(n))
+    self._np += uses
+    try:
+      return self.generic_visit(n)
+    finally:
+      self._np -= uses
 
   def visit_AugAssign(self, n):
     import ast, copy
     self.generic_visit(n)
-    if isinstance(n.value, (ast.List, ast.ListComp, ast.Tuple)):
-      return n      # in-place extension of a list: not the same program
+    if isinstance(n.value, (ast.List, ast.ListComp, ast.Tuple)) or self._np:
+      return n      # in-place extension of a list / array: another program
     load = copy.deepcopy(n.target)
     load.ctx = ast.Load()
     return ast.copy_location(ast.Assign(
